@@ -62,6 +62,7 @@ type FuncContract struct {
 	Invs     []*Clause
 	Decr     []*Clause
 	CallReqs []*Clause
+	MapReqs  []*Clause // mapupdate <field-or-variable> requires ...: obligations at every m[k] = v on that map
 	Ghosts   []*Clause // unused
 	Steps    []*Step   // fresh / invoke steps of assumed higher-order contracts, in order
 	File     string
@@ -445,6 +446,29 @@ func (c *Contracts) LoadFile(path string) error {
 			} else {
 				cur.Decr = append(cur.Decr, cl)
 			}
+		case "mapupdate":
+			if cur == nil {
+				c.errf(path, ln, "mapupdate clause outside a function contract")
+				continue
+			}
+			target, r := cutWord(rest)
+			kind, r := cutWord(r)
+			if kind != "requires" {
+				c.errf(path, ln, "mapupdate <map> requires ...")
+				continue
+			}
+			tags, r := splitTags(r)
+			name, r := splitName(r)
+			e, err := ParseCExpr(r)
+			if err != nil {
+				c.errf(path, ln, "%v", err)
+				continue
+			}
+			cl := &Clause{Kind: "mapreq", Name: name, Props: tags, Expr: e, Src: r, Anchor: target, File: path, Line: ln}
+			if cl.Name == "" {
+				cl.Name = fmt.Sprintf("L%d", ln)
+			}
+			cur.MapReqs = append(cur.MapReqs, cl)
 		case "call":
 			if cur == nil {
 				c.errf(path, ln, "call clause outside a function contract")
